@@ -18,7 +18,7 @@ _status_rule = ('explicit-state BFS to the fix-point over the real register mach
 reg('C11',
     title='status byte equals the summary of the registers behind it',
     src='c11_status.c', engine='mcx',
-    configs={'quick': ['def', 'noinfo', 'def+fast'], 'thorough': ['def', 'noinfo', 'def+fast']},
+    configs={'quick': ['def', 'noinfo', 'c90', 'heap', 'def+fast'], 'thorough': ['def', 'noinfo', 'c90', 'heap', 'def+fast']},
     deadline={'quick': 100, 'thorough': 1500},
     level=MC,
     technique='explicit-state model checking (BFS with canonical-state deduplication) of the real register machine against a 10-line summary model',
@@ -34,7 +34,7 @@ reg('C11',
 reg('C12',
     title='events are classified, latched and announced',
     src='c11_status.c', cflags=['-DC12_MODE=1'], engine='mcx',
-    configs={'quick': ['def', 'noinfo', 'def+fast'], 'thorough': ['def', 'noinfo', 'def+fast']},
+    configs={'quick': ['def', 'noinfo', 'c90', 'def+fast'], 'thorough': ['def', 'noinfo', 'c90', 'def+fast']},
     deadline={'quick': 100, 'thorough': 1500},
     level=MC,
     technique='explicit-state model checking of the real register machine with per-transition latch/clear/SRQ rules, plus exhaustive enumeration of all 65536 error codes',
@@ -87,7 +87,7 @@ reg('C20',
 reg('C13',
     title='tokenizer recognises exactly the IEEE 488.2 program-data token syntax',
     src='c13_lexer.c',
-    configs={'quick': ['def'], 'thorough': ['def']},
+    configs={'quick': ['def'], 'thorough': ['def', 'c90']},
     deadline={'quick': 100, 'thorough': 1500},
     level=MC, nontrivial_stat='nontrivial',
     technique='bounded-exhaustive enumeration of all input strings up to length L per recogniser, executed on the real lexer (ASan) and compared with independent reference recognisers',
@@ -102,7 +102,7 @@ reg('C13',
 reg('C19',
     title='numeric and channel lists decode entry by entry exactly as written',
     src='c19_expr.c',
-    configs={'quick': ['def'], 'thorough': ['def']},
+    configs={'quick': ['def'], 'thorough': ['def', 'c90']},
     deadline={'quick': 100, 'thorough': 1500},
     level=MC,
     technique='bounded-exhaustive enumeration of all expression bodies up to length L x index x capacity on the real expression API (ASan), compared with a reference list grammar',
@@ -164,7 +164,7 @@ reg('C05',
 reg('C06',
     title='responses are framed: ; between units, , between items, one terminator',
     src='c06_framing.c',
-    configs={'quick': ['def', 'lf'], 'thorough': ['def', 'lf']},
+    configs={'quick': ['def', 'lf'], 'thorough': ['def', 'lf', 'c90']},
     deadline={'quick': 100, 'thorough': 1500},
     level=MC,
     technique='bounded-exhaustive enumeration of messages x predecessor histories executed through SCPI_Input (ASan), byte-exact comparison of write()/flush() with a framing model',
@@ -179,7 +179,7 @@ reg('C06',
 reg('C09',
     title='messages and units are isolated: nothing but status and errors carries over',
     src='c09_isolation.c',
-    configs={'quick': ['def', 'heap'], 'thorough': ['def', 'noinfo', 'heap']},
+    configs={'quick': ['def', 'heap'], 'thorough': ['def', 'noinfo', 'heap', 'c90']},
     deadline={'quick': 100, 'thorough': 1500},
     level=MC,
     technique='bounded-exhaustive differential enumeration: every ordered pair of messages executed on the real parser (ASan), trace of B after A compared with B on a fresh context',
@@ -209,7 +209,7 @@ reg('C08',
 reg('C14',
     title='integer-to-text conversion is exact for every value, base and buffer size',
     src='c14_inttostr.c',
-    configs={'quick': ['def', 'def+fast'], 'thorough': ['def', 'def+fast']},
+    configs={'quick': ['def', 'def+fast'], 'thorough': ['def', 'c90', 'def+fast']},
     deadline={'quick': 100, 'thorough': 1500},
     level=MC,
     technique='exhaustive enumeration of the 32-bit value space (thorough; one value per 64-value stratum in quick) and of a structured 64-bit set x bases x signedness x every buffer length 0..70 on the real formatter, compared with an independent formatter',
@@ -296,7 +296,7 @@ reg('C16',
 reg('C04',
     title='numeric parameters decode to the value their literal denotes',
     src='c04_numeric.c', py='py_c04.py',
-    configs={'quick': ['def'], 'thorough': ['def']},
+    configs={'quick': ['def', 'c90'], 'thorough': ['def', 'c90']},
     deadline={'quick': 110, 'thorough': 1500},
     level=MC,
     technique='complete enumeration of a grammar-derived finite literal set executed through SCPI_Input on the real readers (ASan), compared bit for bit with results computed in exact rational arithmetic (Python Fractions)',
@@ -311,7 +311,7 @@ reg('C04',
 reg('C01',
     title='no out-of-bounds access, undefined behaviour or hang on any input stream',
     src='c01_memsafe.c',
-    configs={'quick': ['def', 'heap', 'dtostre'], 'thorough': ['def', 'noinfo', 'heap', 'dtostre']},
+    configs={'quick': ['def', 'heap', 'dtostre'], 'thorough': ['def', 'noinfo', 'heap', 'dtostre', 'c90']},
     deadline={'quick': 110, 'thorough': 1700},
     level=MC,
     technique='bounded-exhaustive enumeration of input byte strings x input-buffer sizes x segmentations x residues, executed on the real library under ASan + UBSan with exact-size heap blocks and a tail-poisoned input buffer',
